@@ -202,6 +202,29 @@ theorem C12_cmap_copy (h : List Op) (name : Nat) (ext : List (Nat × Nat)) :
   have h2 := getCMap_spec W _ name h1.2
   exact ⟨_, by simp only [step]; rw [h2.1]⟩
 
+/-! ## Interpreter state is per page -/
+
+/-- Whatever the interpreter was left with by the previous page of the same call (an unpainted
+path, unbalanced `q`, a changed line width, dangling operands), the next page is interpreted from
+the initial state: its result is the fresh page. -/
+theorem C12_interp_reset (d : DocSpec) (caching : Bool) (c : Caches) (t : Tables) (left : Interp) (pg : PageSpec)
+    (hc : CachesOk W d c) (ht : TablesOk W t) :
+    (processPage W d caching c t left pg).1 = freshPage W d pg :=
+  (processPage_spec W d caching c t left pg hc ht).1
+
+/-- …and what a page leaves behind does not depend on what it found. -/
+theorem C12_interp_left_independent (left left' : Interp) (pg : PageSpec) :
+    interpAfter left pg = interpAfter left' pg := rfl
+
+/-- `init_state` WITHOUT the reset of the current path (the path survives into the next page). -/
+def initStateKeepPath (left : Interp) : Interp := { Interp.init with curpath := left.curpath }
+
+/-- Without the reset, a page that ends with an unpainted rectangle leaks a shape into the next
+page that paints: one painted rectangle becomes two shapes. -/
+theorem curpath_leak_cex :
+    (runG (initStateKeepPath (runG Interp.init [.re]).1) [.re, .paint]).2 ≠ (runG Interp.init [.re, .paint]).2 := by
+  decide
+
 /-! ## Why the discipline matters: proved counter-examples for two broken disciplines -/
 
 /-- `get_encoding` WITHOUT the copy: the differences are written into the shared table. -/
@@ -248,14 +271,14 @@ def docA : DocSpec :=
   { objs := [(1, .direct 101), (2, .direct 102), (3, .direct 103), (4, .direct 104), (10, .direct 110),
              (11, .direct 111), (12, .direct 112)],
     fontSpecs := [(3, simpleFont)], openReads := [1],
-    pages := [⟨[2, 10], [.byId 3], [11], [(0, [65, 66, 67, 68, 69])]⟩,
-              ⟨[12], [.byId 3, .direct simpleFont], [11], [(1, [66]), (0, [65])]⟩] }
+    pages := [⟨[2, 10], [.byId 3], [11], [(0, [65, 66, 67, 68, 69])], [.w 4, .re, .paint, .q, .w 9, .operand 7, .m, .l]⟩,
+              ⟨[12], [.byId 3, .direct simpleFont], [11], [(1, [66]), (0, [65])], [.Q, .re, .m, .l, .l, .h, .paint]⟩] }
 
 def docB : DocSpec :=
   { objs := [(1, .direct 201), (2, .direct 202), (3, .inStream 9 203), (4, .inStream 9 204), (9, .direct 209),
              (10, .direct 210), (11, .direct 211)],
     fontSpecs := [(3, cjkFont)], openReads := [1],
-    pages := [⟨[2, 10], [.byId 3], [11], [(0, [65, 66, 67])]⟩] }
+    pages := [⟨[2, 10], [.byId 3], [11], [(0, [65, 66, 67])], [.re]⟩] }
 
 /-- the interleaved history used below -/
 def hist0 : List Op :=
@@ -269,6 +292,14 @@ example : (pagesSpec W0 docA []).map (·.glyphs) =
 
 /-- docB page 0 decodes through the predefined CMap and the unicode map: あ, (cid:6); code 67 has no glyph -/
 example : (pagesSpec W0 docB []).map (·.glyphs) = [[[[12354], [1114118]]]] := by decide
+
+/-- docA page 0 paints one rectangle with line width 4 and leaves an unpainted path, a saved
+graphics state, line width 9 and a dangling operand behind; page 1 (stray `Q`, default line width)
+paints a rectangle and a closed triangle — and nothing of page 0 -/
+example : (pagesSpec W0 docA []).map (·.shapes) = [[(5, 4)], [(5, 0), (4, 0)]] := by decide
+
+example : ((alookup 1 (run W0 (init W0) [.open 1 docA true [], .next 1]).handles).map (·.interp)) =
+    some ⟨[0, 1], [4], 9, [7]⟩ := by decide
 
 /-- the interleaved history yields, page for page, the fresh pages of each document -/
 example : outputs W0 (init W0) hist0 =
